@@ -46,3 +46,16 @@ Proof.
   destruct (Z.ltb_spec 16 e); [|reflexivity].
   destruct (Z.ltb_spec 6 e); [|lia]. rewrite orb_true_r. reflexivity.
 Qed.
+
+(* the scientific form: mantissa rendered with exponent 0 (so "0.ddd", C08_value with exp = 0), the exponent marker,
+   and the exponent itself as a sign and at least two decimal digits denoting |e| *)
+Require Import DecProof.
+Theorem sci_form f d v e : fs_sci f = true -> - 10 ^ 80 < e < 10 ^ 80 ->
+  exists ds, print_number f d v e =
+             print_fixed (fs_sig f) 0 (fs_exact f) (digits_for d v (fs_sig f))
+             ++ [if fs_capital f then 69 else 101] ++ (if e <? 0 then 45 else 43) :: ds /\
+             (2 <= length ds)%nat /\ Forall (fun c => 48 <= c <= 57) ds /\ codes_value ds = Z.abs e.
+Proof.
+  intros Hs He. destruct (fmt_exp_spec e He) as (ds & E & Hl & Hd & Hv). exists ds.
+  unfold print_number. rewrite Hs, E. auto.
+Qed.
